@@ -1,6 +1,7 @@
 package checks
 
 import (
+	"bufio"
 	"bytes"
 	"errors"
 	"fmt"
@@ -410,6 +411,33 @@ func runCSVCase(c csvCase) *core.Failure {
 			why = " (reference: " + want.ErrText + ")"
 		}
 		return core.Failf("ReadCSV(%s) conf=%+v (%s): %s%s\n want: %s\n  got: %s", show(doc), c.Conf, sched, d, why, want, got)
+	}
+	// the standard library's readers, handed over AFTER a preamble has been consumed from them: ReadCSV reads from
+	// where the reader stands (whether or not the reader could be rewound)
+	if c.Cuts == nil && c.Chunk == 0 && !c.EOFWithData && len(doc) < 200 {
+		pre := []byte("# preamble, 1, 2\n\xef\xbb\xbf")
+		whole := append(append([]byte{}, pre...), doc...)
+		skip := func(r io.Reader) io.Reader {
+			if _, err := io.ReadFull(r, make([]byte, len(pre))); err != nil {
+				panic(err)
+			}
+			return r
+		}
+		br := bytes.NewReader(whole)
+		_, _ = br.Seek(int64(len(pre)), io.SeekStart)
+		readers := map[string]io.Reader{
+			"bytes.Reader after Seek":   br,
+			"bytes.Reader after Read":   skip(bytes.NewReader(whole)),
+			"strings.Reader after Read": skip(strings.NewReader(string(whole))),
+			"bytes.Buffer after Read":   skip(bytes.NewBuffer(append([]byte{}, whole...))),
+			"bufio.Reader after Read":   skip(bufio.NewReaderSize(bytes.NewReader(whole), 16)),
+		}
+		for name, r := range readers {
+			g := model.Observe(qframe.ReadCSV(r, opts...))
+			if d := model.Diff(base, g); d != "" && !(base.Err && g.Err) {
+				return core.Failf("ReadCSV(%s) conf=%+v from a %s of a preamble: %s\n from the plain document: %s\n from this reader:       %s", show(doc), c.Conf, name, d, base, g)
+			}
+		}
 	}
 	return nil
 }
